@@ -62,14 +62,11 @@ def load_csv(
         raise DataError(f"Duplicate value(s) in column at index {id_col}")
 
     if rank_cols:
+        ranks = list(df.columns[rank_cols])
+    else:
+        ranks = list(df.columns)
         if id_col is not None:
-            df = df.iloc[:, rank_cols + [id_col]]
-        else:
-            df = df.iloc[:, rank_cols]
-
-    ranks = list(df.columns)
-    if id_col is not None:
-        ranks.remove(df.columns[id_col])
+            ranks.remove(df.columns[id_col])
     grouped = df.groupby(ranks, dropna=False)
     ballots = []
 
